@@ -169,9 +169,12 @@ def _work(spec):
             X = F.build(spec)
             n, v = check(X) if spec["cls"] != "D" else check_directed(X)
             F.detour(X)
+            F.morph(X)  # a different network with the same node and edge counts
             n2, v2 = check(X) if spec["cls"] != "D" else check_directed(X)
-            n += n2
-            v = list(v) + [(m, "[same object re-evaluated after remove+re-add of its first node and edge] " + msg) for m, msg in v2]
+            F.grow(X)  # one more edge with a fresh ID
+            n3, v3 = check(X) if spec["cls"] != "D" else check_directed(X)
+            n += n2 + n3
+            v = list(v) + [(m, "[same object re-evaluated after in-place edits] " + msg) for m, msg in list(v2) + list(v3)]
         except RecursionError:
             raise
         except Exception as e:  # noqa: BLE001
@@ -196,6 +199,9 @@ def family(tier):
                                    edge_ids=["e%d" % (m - i) for i in range(m)], reverse_nodes=True))
         if k % 11 == 0:
             items.append(F.with_empty_edge(s))
+    for s in base[::9]:
+        for _, nm in F.exotic_label_maps(s["nodes"]):
+            items.append(F.relabel(s, node_map=nm))
     # longer paths / cycles / nested edges
     items += [F.H([[i, i + 1] for i in range(6)]), F.H([[i, (i + 1) % 6] for i in range(6)]),
               F.H([[0, 1, 2], [2, 3, 4], [4, 5, 6], [6, 7]]), F.H([[1, 2, 3, 4], [1, 2, 3], [1, 2], [1], [3, 4], [4, 5]]),
